@@ -91,12 +91,14 @@ def jobs(tier):
              (3, [['S', [2]], ['CNOT', [2, 0]], ['H', [2]], ['C9', [0]]]),
              (2, [['fmap', [0]], ['gen', [0, 1]], ['bmap', [1]]]), (2, [['bmap', [0]], ['fmap', [0]]]), (3, [['bmap', [1]], ['gen', [0, 2]], ['fmap', [2]]]),
              (2, [['fmap', [0, 1]], ['gen', [0]]]), (2, [['gen', [1]], ['bmap', [0, 1]]])]
+    n_listed = len(progs)
     if thorough:
         for N in (2, 3):
             for places in itertools.product(tuples(N, 2), repeat=3):
                 progs.append((N, [['gen', q] for q in places]))
         progs += [(3, [['fmap', [0, 2]], ['gen', [1, 2]], ['H', [0]]]), (3, [['gen', [0, 1]], ['bmap', [1, 2]]]), (3, [['bmap', [1]], ['gen', [0, 1, 2]], ['fmap', [2]]])]
-    for N, prog in progs:
+    for k_prog, (N, prog) in enumerate(progs):
+        swept = thorough and k_prog >= n_listed and all(k == 'gen' for k, q in prog) and len(prog) == 3      # exhaustive 3-gate placement sweep
         twoq = any(k in ('fmap', 'bmap') and len(q) == 2 for k, q in prog)
         anymap = any(k in ('fmap', 'bmap') for k, q in prog)
         heavy = N == 3 and sum(len(q) >= 2 for k, q in prog if k == 'gen') >= 2
@@ -105,16 +107,18 @@ def jobs(tier):
                 for cls, variant in ALLV:
                     if not thorough and config == 'circuit' and (twoq or (heavy and (variant != 'orig' or order == 'bf' or cls == 'Circuit'))):
                         continue
+                    if swept and (config == 'circuit' or (cls, variant) != ALLV[0]) and not (config == 'circuit' and (cls, variant) == ALLV[0] and order == 'fb' and not heavy):
+                        continue        # the sweep runs plain + layer-compiled on the original circuit; the listed programs carry the other variants
                     J.append(dict(harness=R, params=dict(N=N, prog=prog, config=config, cls=cls, variant=variant, order=order),
                                   timeout_s=900, cost=40 if config == 'circuit' else 5))
-        if len(prog) >= 2 and not twoq and (thorough or not heavy):
+        if len(prog) >= 2 and not twoq and (thorough or not heavy) and not (swept and k_prog % 9):
             # histories: compile, add gates, compile again, then run backward/forward
             for config in ('layers', 'circuit'):
                 for cls, variant in ALLV[:2] + ALLV[3:]:
                     for k in (1, len(prog) - 1):
                         J.append(dict(harness=R, params=dict(N=N, prog=prog, config=config, cls=cls, variant=variant, order='fb', recompile=k),
                                       timeout_s=900, cost=40))
-        if not anymap or thorough:
+        if (not anymap or thorough) and not (swept and k_prog % 9):
             J.append(dict(harness=R, params=dict(N=N, prog=prog, inp='state', r=1, config='circuit' if not (heavy or twoq) else 'plain'), timeout_s=900, cost=40))
     # histories around compose (shared with C09): backward must undo forward for BOTH circuits afterwards
     for N in (2, 3):
